@@ -277,6 +277,9 @@ def norm(e, env):
         b = norm(c[2], env) if len(c) > 2 else Poly.atom(('opaque', 'unit'))
         return Poly.atom(('fn', 'if', (('cond', cond), a.freeze(), b.freeze())))
     if k == 'Field':
+        b = peel(e['ch'][0])
+        if b.get('k') == 'Path' and b.get('res') == 'local' and (b['local'], e['field']) in env.sym_of:
+            return Poly.atom(('sym', env.sym_of[(b['local'], e['field'])]))
         return Poly.atom(('fn', 'field:' + e['field'], (norm(e['ch'][0], env).freeze(),)))
     return Poly.atom(('opaque', src(e)))
 
